@@ -254,7 +254,12 @@ impl<W: tokio::io::AsyncSeek + Unpin> tokio::io::AsyncSeek for ProgressBarIter<W
     }
 
     fn poll_complete(mut self: Pin<&mut Self>, cx: &mut Context<'_>) -> Poll<io::Result<u64>> {
-        Pin::new(&mut self.it).poll_complete(cx)
+        let poll = Pin::new(&mut self.it).poll_complete(cx);
+        // As in the `Seek` impl: a completed seek moves the bar to the new offset
+        if let Poll::Ready(Ok(pos)) = &poll {
+            self.progress.set_position(*pos);
+        }
+        poll
     }
 }
 
